@@ -29,6 +29,8 @@ def gen(rng, tier, no, wide=False):
                 args = {"correlation": a["correlation"], "External id": a["External id"]}
                 if nm == "Stream Sync":
                     args["stream"] = 7
+                elif rng.random() < 0.15:
+                    del args["correlation"]      # a synchronisation record on stream -1 that carries no correlation id
                 extra.append({"ph": "X", "cat": "cuda_sync", "name": nm, "pid": r, "tid": 7 if nm == "Stream Sync" else 0,
                               "ts": e["ts"], "dur": e["dur"], "args": args})
         for x in extra:
